@@ -3,6 +3,7 @@
 package main
 
 import (
+	"bytes"
 	"encoding/json"
 	"flag"
 	"fmt"
@@ -380,8 +381,12 @@ func (c *Ctx) finish() int {
 		path := filepath.Join(outRoot(c.Root), "replays", fmt.Sprintf("%s-seed%d-%d.json", c.Check.ID, c.Seed, n))
 		_ = os.MkdirAll(filepath.Dir(path), 0o755)
 		rf := replayFile{Property: c.Check.ID, Sig: f.V.Sig, Msg: f.V.Msg, Plan: min, Confirmed: confirmed, VerifSeed: c.Seed}
-		b, _ := json.MarshalIndent(rf, "", " ")
-		_ = os.WriteFile(path, b, 0o644)
+		var rb bytes.Buffer
+		renc := json.NewEncoder(&rb)
+		renc.SetEscapeHTML(false)
+		renc.SetIndent("", " ")
+		_ = renc.Encode(rf)
+		_ = os.WriteFile(path, rb.Bytes(), 0o644)
 		if !confirmed {
 			// A violation that does not reproduce in fresh processes is a harness defect, not a verdict.
 			fmt.Printf("NON-REPRODUCIBLE property=%s sig=%q replay=%s\n", c.Check.ID, f.V.Sig, path)
